@@ -152,10 +152,10 @@ def check(ctx):
 
     # ---------------------------------------------------------------- R5 first state (shared rules)
     from . import C08, C15, C07
-    from .C03 import Proxy
-    C08.check(Proxy(ctx, 'R5/C08.', only=['R5.']))
-    C15.check(Proxy(ctx, 'R5/C15.', only=['R3.', 'R4.first_state_kept']))
-    C07.check(Proxy(ctx, 'R5/C07.', only=['R3.uniform']))
+    from .common import Proxy, share
+    share(ctx, 'C08', 'R5/C08.', ['R5.'])
+    share(ctx, 'C15', 'R5/C15.', ['R3.', 'R4.first_state_kept'])
+    share(ctx, 'C07', 'R5/C07.', ['R3.uniform'])
 
     # ---------------------------------------------------------------- R3/R4 drivers
     opq = set(DRV_OPAQUE)
